@@ -21,6 +21,7 @@ import glob
 import itertools
 import json
 import os
+import re
 import subprocess
 import sys
 
@@ -130,8 +131,9 @@ def outcome(abbr, cfg):
 
     def on_alarm(sig, frm):
         raise Hang()
-    old = signal.signal(signal.SIGALRM, on_alarm)
-    signal.setitimer(signal.ITIMER_REAL, HANG_S)
+    # CPU time of this process (ITIMER_PROF), not wall time: independent of the load of the machine
+    old = signal.signal(signal.SIGPROF, on_alarm)
+    signal.setitimer(signal.ITIMER_PROF, HANG_S)
     try:
         out = expand(abbr, copy.deepcopy(cfg))
         r = ('ok', out) if isinstance(out, str) else ('notstr', type(out).__name__)
@@ -140,8 +142,8 @@ def outcome(abbr, cfg):
     except Exception as e:  # noqa
         r = classify(e)
     finally:
-        signal.setitimer(signal.ITIMER_REAL, 0)
-        signal.signal(signal.SIGALRM, old)
+        signal.setitimer(signal.ITIMER_PROF, 0)
+        signal.signal(signal.SIGPROF, old)
     return r
 
 
@@ -295,6 +297,34 @@ def random_cfg(rng):
     return cfg
 
 
+RE_REPEAT = re.compile(r'\*(\d+)')
+MAX_COPIES = 400
+
+
+def repeat_product(abbr):
+    """Upper bound of the number of copies an abbreviation asks for (product of all *N counts)."""
+    prod = 1
+    for m in RE_REPEAT.finditer(abbr):
+        try:
+            prod *= max(1, int(m.group(1)))
+        except ValueError:
+            prod *= 10 ** len(m.group(1))
+        if prod > 10 ** 9:
+            break
+    return prod
+
+
+def bound_copies(abbr, cfg):
+    """Generators keep the amount of requested OUTPUT bounded (like nesting depth): the formatter is quadratic in the
+    number of siblings, `a*3232` needs ~8 s, which is slow, not a hang.  Inputs asking for more than MAX_COPIES copies
+    are run under maxRepeat=200 (the library's own limit option), so the input text itself stays unrestricted."""
+    if repeat_product(abbr) > MAX_COPIES:
+        m = cfg.get('maxRepeat')
+        if not (isinstance(m, int) and 0 < m <= 200):
+            cfg = dict(cfg, maxRepeat=200)
+    return cfg
+
+
 class Cases:
     """cases as (abbr, cfg index, tag) with a configuration table (configs deduplicated by canonical JSON)."""
 
@@ -311,7 +341,7 @@ class Cases:
         return self.index[k]
 
     def add(self, abbr, cfg, tag):
-        self.items.append((abbr, self.cfg_id(cfg), tag))
+        self.items.append((abbr, self.cfg_id(bound_copies(abbr, cfg)), tag))
 
 
 def gen(ctx):
@@ -528,6 +558,7 @@ def replay_markup(ctx, obj):
         r = outcome(abbr, cfg)
     finally:
         sys.setrecursionlimit(lim)
+    cfg = bound_copies(abbr, cfg)
     bad = oracle(abbr, cfg, r)
     print('markup expand(%r, %s) -> %s : %s' % (abbr, canon_cfg(cfg), repr(r)[:300], bad or 'property holds'))
     return 1 if bad else 0
